@@ -28,6 +28,10 @@ static int f_assert_rval(int c) { ASSERT_RVAL(c ? 1 : (bump(), 0), 41); R->conti
 static int f_notreached_rval(void) { ASSERT_NOTREACHED_RVAL(42); R->continued = 1; return 7; }
 static void f_require(int c) { REQUIRE(c ? 1 : (bump(), 0)); R->continued = 1; }
 static int f_require_rval(int c) { REQUIRE_RVAL(c ? 1 : (bump(), 0), 43); R->continued = 1; return 7; }
+/* a condition whose text holds conversion characters: the diagnostic shows it as text ("100%%" stays two percent signs), it is not a format */
+static int f_assert_pct(int c) { ASSERT_RVAL(c ? 1 : (bump(), strcmp("100%%", "x") == 0), 41); R->continued = 1; return 7; }
+static int f_require_pct(int c) { REQUIRE_RVAL(c ? 1 : (bump(), strcmp("100%%", "x") == 0), 43); R->continued = 1; return 7; }
+static void p_assert_pct(void) { R->ret = f_assert_pct(0); } static void p_require_pct(void) { R->ret = f_require_pct(0); }
 static void p_assert_t(void) { f_assert(1); } static void p_assert_f(void) { f_assert(0); }
 static void p_assert_rval_t(void) { R->ret = f_assert_rval(1); } static void p_assert_rval_f(void) { R->ret = f_assert_rval(0); }
 static void p_notreached_rval(void) { R->ret = f_notreached_rval(); }
@@ -53,6 +57,7 @@ static const probe_t PROBES[] = {
     { "ASSERT(true)", p_assert_t, G_ASSERT_T, 0, 0 }, { "ASSERT(false)", p_assert_f, G_ASSERT_F, 0, 0 }, { "ASSERT_RVAL(true)", p_assert_rval_t, G_ASSERT_T, 0, 0 }, { "ASSERT_RVAL(false,41)", p_assert_rval_f, G_ASSERT_RVAL_F, 41, 0 },
     { "ASSERT_NOTREACHED_RVAL(42)", p_notreached_rval, G_NOTREACHED_RVAL, 42, 0 },
     { "REQUIRE(true)", p_require_t, G_REQUIRE_T, 0, 0 }, { "REQUIRE(false)", p_require_f, G_REQUIRE_F, 0, 0 }, { "REQUIRE_RVAL(true)", p_require_rval_t, G_REQUIRE_T, 0, 0 }, { "REQUIRE_RVAL(false,43)", p_require_rval_f, G_REQUIRE_RVAL_F, 43, 0 },
+    { "ASSERT_RVAL(false,41) on a condition containing \"100%%\"", p_assert_pct, G_ASSERT_RVAL_F, 41, 0 }, { "REQUIRE_RVAL(false,43) on a condition containing \"100%%\"", p_require_pct, G_REQUIRE_RVAL_F, 43, 0 },
     { "libast_dprintf", p_prim_dprintf, G_PRIM, 0, 0 }, { "libast_print_warning", p_prim_warning, G_PRIM, 0, 0 }, { "libast_print_error", p_prim_error, G_PRIM, 0, 0 },
     { "D_CONF in spiftool_version_compare", p_lib_conf, G_LIB, 3, 1 }, { "D_OPTIONS in spifopt_parse", p_lib_options, G_LIB, 1, 1 }, { "D_OBJ in spif_mbuff_init_from_fp", p_lib_obj, G_LIB, 2, 1 }, { "D_MEM in spifmem_malloc", p_lib_mem, G_LIB, 5, 1 },
 };
@@ -86,6 +91,7 @@ static void g_case(uint64_t idx, void *ctx)
             dup2(nul, 2);
             libast_debug_level = 0; libast_set_silent(FALSE);
             libast_dprintf(NULL); libast_print_warning(NULL); libast_print_error(NULL);
+            { spif_charptr_t keep_name = libast_program_name; libast_program_name = NULL; libast_dprintf("refused %d\n", 1); libast_program_name = keep_name; }     /* and one refused for want of a program name */
             fflush(NULL);
             dup2(keep, 2); close(keep); close(nul);
         }
@@ -128,6 +134,7 @@ static void g_case(uint64_t idx, void *ctx)
     else {
         if (p->gate != G_LIB && (r.bumps != 0) != want_eval) FAIL(site, "model:argument-evaluation", shape, "arguments/condition were %sevaluated (%d side effects), expected %s", r.bumps ? "" : "not ", r.bumps, want_eval ? "evaluation" : "none");
         if (check_out && (total > 0) != want_out) FAIL(site, want_out ? "model:no-output" : "model:unexpected-output", shape, "%ld bytes written to stderr, expected %s: %.120s", total, want_out ? "output" : "silence", err);
+        if (check_out && strstr(p->name, "100%") && strstr(err, "100%") && !strstr(err, "100%%")) FAIL(site, "model:diagnostic-garbled", shape, "the condition's text was used as a format: %.160s", err);
         if (p->gate >= G_ASSERT_T && p->gate <= G_REQUIRE_RVAL_F) {
             if (r.continued != want_cont) FAIL(site, "model:control-flow", shape, "the function %s after the statement, expected it to %s", r.continued ? "continued" : "returned", want_cont ? "continue" : "return");
             if (want_ret >= 0 && r.ret != want_ret) FAIL(site, "model:return-value", shape, "returned %d, expected %d", r.ret, want_ret);
@@ -140,8 +147,8 @@ int main(int argc, char **argv)
 {
     mc_init("C20", argc, argv);
     NP = 0; for (int i = 0; i < NPROBES; i++) if (!PROBES[i].thorough_only || mc_thorough()) NP = i + 1;
-    mc_info("alphabet", "build DEBUG=%d (%s): %d probes (D_OPTIONS/OBJ/CONF/MEM/STRINGS/PARSE/NEVER, DPRINTF, DPRINTF1..9, ASSERT/ASSERT_RVAL/ASSERT_NOTREACHED_RVAL/REQUIRE/REQUIRE_RVAL true and false, the three output primitives%s) "
-            "x runtime levels {0..6, 9999} x silent {off, TRUE, 0x100} x {fresh process, after three refused output calls}", BUILD, mc_arg("build", "?"), NP, mc_thorough() ? ", four in-library statements" : "");
+    mc_info("alphabet", "build DEBUG=%d (%s): %d probes (D_OPTIONS/OBJ/CONF/MEM/STRINGS/PARSE/NEVER, DPRINTF, DPRINTF1..9, ASSERT/ASSERT_RVAL/ASSERT_NOTREACHED_RVAL/REQUIRE/REQUIRE_RVAL true and false and on a condition whose text holds %%, the three output primitives%s) "
+            "x runtime levels {0..6, 9999} x silent {off, TRUE, 0x100} x {fresh process, after four refused output calls}", BUILD, mc_arg("build", "?"), NP, mc_thorough() ? ", four in-library statements" : "");
     mc_e2_level("gate", BUILD, (uint64_t) NP * 48, g_case, g_desc, NULL);
     return mc_finish();
 }
